@@ -32,21 +32,21 @@ C == call.c
 CanExchange == Running(C) /\ Running(Server) /\ net = "open"
 TyOf(f) == IF ExtOf[call.src] = ExtOf[call.dst] THEN f.type ELSE TypeByExt(call.dst)
 MSrvPort ==
-    /\ Open /\ call.last = "Begin" /\ CanExchange /\ (call.kind = "send" => Has(C, call.src))
+    /\ Open /\ ~call.fault /\ call.last = "Begin" /\ CanExchange /\ (call.kind = "send" => Has(C, call.src))
     /\ SrvPort(C, "OK", active) /\ Same
 MSrvStor ==
-    /\ Open /\ call.kind = "send" /\ call.last = "SrvPort"
+    /\ Open /\ ~call.fault /\ call.kind = "send" /\ call.last = "SrvPort"
     /\ SrvStor(C, IF Has(Server, call.dst) THEN "ERROR" ELSE "OK", TyOf(fs[C][call.src]), [active EXCEPT ![Server] = TRUE]) /\ Same
 MSrvQuit ==
     /\ Open /\ call.last = "SrvStor" /\ call.stor
     /\ SrvQuit(C, "OK", active) /\ Same
 MCliData ==
-    /\ Open /\ call.kind = "retr" /\ call.last = "SrvPort" /\ Has(Server, call.src)
+    /\ Open /\ ~call.fault /\ call.kind = "retr" /\ call.last = "SrvPort" /\ Has(Server, call.src)
     /\ CliData(C, TyOf(fs[Server][call.src]), [active EXCEPT ![Server] = TRUE]) /\ Same
 MSrvRetr ==
     /\ Open /\ call.kind = "retr"
     /\ \/ call.last = "CliData"
-       \/ (call.last = "SrvPort" /\ ~Has(Server, call.src))
+       \/ (call.last = "SrvPort" /\ (~Has(Server, call.src) \/ call.fault))
     /\ SrvRetr(C, IF call.data THEN "OK" ELSE "ERROR", [active EXCEPT ![Server] = TRUE]) /\ Same
 MReturn ==
     /\ Open
@@ -54,9 +54,17 @@ MReturn ==
        THEN \/ (call.last = "Begin" /\ ~(CanExchange /\ Has(C, call.src)))
             \/ (call.last = "SrvStor" /\ ~call.stor)
             \/ call.last = "SrvQuit"
-       ELSE \/ (call.last = "Begin" /\ ~CanExchange)
+            \/ call.fault
+       ELSE \/ (call.last = "Begin" /\ (~CanExchange \/ call.fault))
             \/ call.last = "SrvRetr"
     /\ Return(C, call.kind, Delivered, active) /\ Same
+\* the environment fault: the frame that is about to be sent (PORT, or the data of STOR / RETR) is refused by the
+\* sender's interface - the link has no capacity left in this timestep
+MSendFail ==
+    /\ Open /\ ~call.fault /\ CanExchange
+    /\ \/ (call.last = "Begin" /\ (call.kind = "send" => Has(C, call.src)))
+       \/ (call.last = "SrvPort" /\ (call.kind = "retr" => Has(Server, call.src)))
+    /\ SendFail(C, IF call.kind = "retr" /\ call.last = "SrvPort" THEN "server" ELSE "client", active) /\ Same
 \* as coded: the RETR reply is OK whenever the file was found, stored by the client or not
 CodedRetrReturn ==
     /\ AsCoded /\ Open /\ call.kind = "retr" /\ call.last = "SrvRetr" /\ call.found /\ ~call.data
@@ -73,7 +81,7 @@ MTick == EnvStep /\ Tick /\ (\E nd \in Nodes : active[nd])
 
 Next ==
     \/ \E c \in AllClients, k \in {"send", "retr"}, s \in Paths, d \in Paths : MBegin(c, k, s, d)
-    \/ MSrvPort \/ MSrvStor \/ MSrvQuit \/ MCliData \/ MSrvRetr \/ MReturn \/ CodedRetrReturn
+    \/ MSrvPort \/ MSrvStor \/ MSrvQuit \/ MCliData \/ MSrvRetr \/ MReturn \/ MSendFail \/ CodedRetrReturn
     \/ \E nd \in AllClients \cup {Server}, v \in Verbs : MSvcReq(nd, v)
     \/ \E nd \in AllClients \cup {Server} : MPower(nd)
     \/ MBlock
